@@ -21,6 +21,21 @@ Short1 == {<<Rec(1, k, 10)>> : k \in Kinds}
 Short2 == {<<Rec(1, k1, 10), Rec(a, k2, 10 + dt)>> : k1 \in Kinds, a \in {1, 2}, k2 \in Kinds, dt \in ShortDts}
 ASSUME Mode = "short" => \A h \in Short1 \cup Short2 : PrintT(ToJson([na |-> 2, h |-> h]))
 
+(* GEN_MODE=hshort (constant level, for the history / REST-view part): every *)
+(*   history of at most two records over HKinds and the three-record         *)
+(*   histories a1-a2-a1 over HKinds3, each under every filter mode.          *)
+(* Filter modes (flt): "none" no output filter, "df17"/"df17_20" downlink    *)
+(* format filters, "ac1"/"ac12" aircraft filters (aircraft 1, aircraft 1+2), *)
+(* "off" history switched off (history_expire = 0).                          *)
+FilterModes == {"none", "df17", "df17_20", "ac1", "ac12", "off"}
+HKinds == {"ID", "APE", "APO", "SPE", "VG", "S4", "S5", "S11", "B50", "C60", "TID", "TAE", "M19", "BAD"}
+HKinds3 == {"ID", "S4", "B50", "TID"}
+HShort1 == {<<Rec(1, k, 10)>> : k \in HKinds}
+HShort2 == {<<Rec(1, k1, 10), Rec(a, k2, 11)>> : k1 \in HKinds, a \in {1, 2}, k2 \in HKinds}
+HShort3 == {<<Rec(1, k1, 10), Rec(2, k2, 11), Rec(1, k3, 13)>> : k1 \in HKinds3, k2 \in HKinds3, k3 \in HKinds3}
+ASSUME Mode = "hshort" => \A h \in HShort1 \cup HShort2 \cup HShort3 : \A f \in FilterModes :
+                            PrintT(ToJson([na |-> 2, h |-> h, flt |-> f]))
+
 (* random interleavings *)
 Lens == {3, 5, 8, 12, 16, 24, 32, 40}
 DtSeq == <<0, 1, 1, 2, 3, 5, 9, 12, 60, 200>>
@@ -30,14 +45,15 @@ KindOf(x) == x[1]
 
 (* One record is drawn in three steps (aircraft, kind, time step) so that a  *)
 (* state has few successors: the simulator draws uniformly among them.       *)
-VARIABLES hist, clock, na, n, pend, done
-vars == <<hist, clock, na, n, pend, done>>
+VARIABLES hist, clock, na, n, pend, done, flt
+vars == <<hist, clock, na, n, pend, done, flt>>
 Init == /\ hist = <<>>
         /\ na \in 1..6
         /\ n \in Lens
         /\ clock = [a \in 1..6 |-> 10 + 7 * a]
         /\ pend = <<>>
         /\ done = FALSE
+        /\ flt \in FilterModes
 Draw == /\ Len(hist) < n
         /\ \/ /\ Len(pend) = 0
               /\ \E a \in 1..na : pend' = <<a>>
@@ -51,10 +67,10 @@ Draw == /\ Len(hist) < n
                    /\ hist' = Append(hist, Rec(a, pend[2], clock[a] + dt))
                    /\ clock' = [clock EXCEPT ![a] = clock[a] + dt]
               /\ pend' = <<>>
-        /\ UNCHANGED <<na, n, done>>
+        /\ UNCHANGED <<na, n, done, flt>>
 (* the complete history is printed from a state with a single predecessor    *)
 (* step (TLC evaluates the invariant on every candidate successor)           *)
-Finish == Len(hist) = n /\ ~done /\ done' = TRUE /\ UNCHANGED <<hist, clock, na, n, pend>>
+Finish == Len(hist) = n /\ ~done /\ done' = TRUE /\ UNCHANGED <<hist, clock, na, n, pend, flt>>
 Next == Mode = "random" /\ (Draw \/ Finish)
-Emit == IF done THEN PrintT(ToJson([na |-> na, h |-> hist])) ELSE TRUE
+Emit == IF done THEN PrintT(ToJson([na |-> na, h |-> hist, flt |-> flt])) ELSE TRUE
 =============================================================================
